@@ -52,9 +52,11 @@ def run(tier, seed, replay=None):
     try:
         if replay:
             rp = json.load(open(replay))
-            script = os.path.join(d, "replay.script")
-            T.write_script(script, [("replay", rp.get("backend", "mem"), rp["script"])])
-            batches = [("replay", dict(script=script))]
+            batches = []
+            if "quitprobe" not in rp:
+                script = os.path.join(d, "replay.script")
+                T.write_script(script, [("replay", rp.get("backend", "mem"), rp["script"])])
+                batches = [("replay", dict(script=script))]
         else:
             k = 20 if tier == "thorough" else 1
             batches = [("hostile", dict(profile="hostile", cases=12 * k, length=150, backend="mem", seed=seed * 1000 + 1)),
@@ -120,6 +122,18 @@ def run(tier, seed, replay=None):
                     out.violation(T.replay_of(PID, r, {"case": case, "step": step, "detail": detail},
                                               {"broken": "correspondence model/implementation (reply or state)",
                                                "theorems_no_longer_about_the_code": pf["theorems"]}), nofail=True)
+        if not replay or "quitprobe" in json.load(open(replay)):
+            # QUIT over a real socket (the in-process runner has none): PING ; SET k v ; QUIT -> three replies, then EOF
+            rc, o = C.sh([C.VH, "quitprobe"], env=C.go_env(), timeout=60)
+            line = next((l for l in o.splitlines() if l.startswith("QUITPROBE")), "")
+            stats["quitprobe"] = line
+            if line.split()[1:] != ["replies=$PONG|+OK|+OK", "closed=True"] and line.split()[1:] != ["replies=$PONG|+OK|+OK", "closed=true"]:
+                v = {"property": PID, "quitprobe": True, "signature": "QUIT/reply", "what": "PING ; SET k v ; QUIT over TCP must be answered PONG, OK, OK and then closed: " + (line or o[-200:]),
+                     "readable": ["PING", "SET k v", "QUIT"], "replay_cmd": "bin/check C16 --replay <this file>"}
+                if "QUIT/reply" in known:
+                    confirmed.setdefault("QUIT/reply", v["what"])
+                else:
+                    out.violation(v)
         for sig in sorted(confirmed):
             out.known_confirmed.append(known[sig])
         cov["evaluations"] = stats["steps"]
